@@ -7,16 +7,16 @@ CONSTANTS
   PurgeIds <- C_PurgeIds
   CommitIds <- C_CommitIds
   Users <- C_Users
-  Cfgs <- C_CfgsWide
-  MaxCalls = 4
+  Cfgs <- C_CfgsCrash
+  MaxCalls = 2
   MaxFlush = 1
   MaxReopen = 0
-  MaxCrash = 0
+  MaxCrash = 1
   MaxFaults = 0
-  Concurrent = FALSE
+  Concurrent = TRUE
   WithRejects = FALSE
-  ExportOneIn = 1
-  RecoveryCrashes = FALSE
+  ExportOneIn = 40
+  RecoveryCrashes = TRUE
 INVARIANTS NoViolation CacheCounterExact ChunksAbut DurableIsPrefix Export 
 VIEW View
 ALIAS Alias
